@@ -133,24 +133,29 @@ func hostCond(r *vlib.PRNG, idx int, perm []int) runDesc {
 // B's first run is the natural schedule (no injected delays), all others use
 // PRNG delays with a seed of their own; raceRuns of them use the -race build.
 func makeRuns(r *vlib.PRNG, k, raceRuns int, repeat bool) []runDesc {
+	return makeRunsSplit(r, k, k/2, raceRuns, repeat)
+}
+
+// makeRunsSplit: the first nA of the k runs are family A.
+func makeRunsSplit(r *vlib.PRNG, k, nA, raceRuns int, repeat bool) []runDesc {
 	perm := r.Perm(len(gomaxprocsPool))
 	runs := make([]runDesc, 0, k)
 	racePick := r.Perm(k)
 	isRace := map[int]bool{}
 	for _, i := range racePick { // the -race build is ~10x slower: not on the runs that execute the program twice
-		if len(isRace) < raceRuns && !(repeat && i < k/2 && i%2 == 1) {
+		if len(isRace) < raceRuns && !(repeat && i < nA && i%2 == 1) {
 			isRace[i] = true
 		}
 	}
 	for i := 0; i < k; i++ {
 		h := hostCond(r, i, perm)
-		if i < k/2 {
+		if i < nA {
 			h.Family = "A"
 			h.Delays = true
 			h.Repeat = repeat && i%2 == 1
 		} else {
 			h.Family = "B"
-			h.Delays = i != k/2
+			h.Delays = i != nA
 		}
 		h.DelaySeed = r.Uint64()
 		h.Race = isRace[i]
@@ -230,6 +235,17 @@ func genCase(r *vlib.PRNG, round, slot int) caseDesc {
 		if round%2 == 0 {
 			c.GPUs = []int{1, 2}
 		}
+	case 6: // unified multi-GPU device of four GPUs; the grid does not divide evenly over them
+		switch (round + r.Intn(3)) % 3 {
+		case 0:
+			c.Workload, c.Params = "fir", map[string]int{"length": pick(r, 8256, 16640), "taps": 16}
+		case 1:
+			c.Workload, c.Params = "kmeans", map[string]int{"points": pick(r, 576, 1088), "features": 8, "clusters": pick(r, 3, 5), "max_iter": 2}
+		default:
+			c.Workload, c.Params = "vectoradd", map[string]int{"width": pick(r, 8256, 16448), "height": 1}
+			c.GPUType, c.Arch = "mi300a", "cdna3"
+		}
+		c.GPUs, c.Unified = []int{1, 2, 3, 4}, true
 	case 5: // mi300a (cdna3 code object)
 		c.Workload = "vectoradd"
 		c.GPUType, c.Arch = "mi300a", "cdna3"
@@ -297,10 +313,16 @@ func buildCases(c *vlib.Check) (cases []caseRuns, par []caseRuns) {
 	k := c.N(4, 8)
 	race := c.N(1, 2)
 	for round := 0; round < rounds; round++ {
-		for slot := 0; slot < 6; slot++ {
+		for slot := 0; slot < 7; slot++ {
 			r := base.ForkN(fmt.Sprintf("round%d", round), slot)
 			cd := genCase(r, round, slot)
-			cases = append(cases, caseRuns{Case: cd, Runs: makeRuns(r.Fork("runs"), k, race, slot == 0 || slot == 1 || slot == 4)})
+			runs := makeRuns(r.Fork("runs"), k, race, slot == 0 || slot == 1 || slot == 4)
+			if slot == 6 {
+				// the member order of a unified device is decided once per process:
+				// more runs, most of them judged bit for bit
+				runs = makeRunsSplit(r.Fork("runs"), k+2, k/2+2, race, false)
+			}
+			cases = append(cases, caseRuns{Case: cd, Runs: runs})
 		}
 	}
 	// parallel engine: functional comparison (buffers only) against the serial
@@ -561,7 +583,11 @@ func (j *judge) judgeCase(cr caseRuns, recs []runRecord, serialRef *runRecord) {
 					cr.Case.Name, ftime(ref.Res.TimeRunBits), ftime(rr.Res.TimeRunBits), ftime(ref.Res.TimeDumpBits), ftime(rr.Res.TimeDumpBits), ftime(ref.Res.TimeEndBits), ftime(rr.Res.TimeEndBits)),
 					j.witness(cr, ref, rr, nil))
 			}
-			whats := sortedKeys(d.byWhat)
+			whats, rowSet := splitRowSet(sortedKeys(d.byWhat))
+			if len(rowSet) > 0 {
+				c.Violation("C05|A|metric-row-set", fmt.Sprintf("case %s: two quiescent-hand-off runs report different sets of mgpusim_metrics rows (rows present in only one of them, by 'what': %v)", cr.Case.Name, rowSet),
+					j.witness(cr, ref, rr, map[string]any{"examples": diffExamples(d, prefixed(rowSet), 8)}))
+			}
 			for _, w := range whats {
 				c.Violation("C05|A|metric|"+w, fmt.Sprintf("case %s: %d rows of mgpusim_metrics '%s' differ between two quiescent-hand-off runs", cr.Case.Name, d.byWhat[w], w),
 					j.witness(cr, ref, rr, map[string]any{"examples": diffExamples(d, []string{w}, 8)}))
@@ -575,7 +601,12 @@ func (j *judge) judgeCase(cr caseRuns, recs []runRecord, serialRef *runRecord) {
 				j.witness(cr, ref, rr, nil))
 		}
 		var timeWhats, memWhats []string
-		for _, w := range sortedKeys(d.byWhat) {
+		plainWhats, rowSet := splitRowSet(sortedKeys(d.byWhat))
+		if len(rowSet) > 0 {
+			c.Violation("C05|"+fam+"|metric-row-set", fmt.Sprintf("case %s: runs that differ only in host conditions report different sets of mgpusim_metrics rows (rows present in only one of them, by 'what': %v)", cr.Case.Name, rowSet),
+				j.witness(cr, ref, rr, map[string]any{"examples": diffExamples(d, prefixed(rowSet), 8)}))
+		}
+		for _, w := range plainWhats {
 			switch metricClass(w, d.first[w]) {
 			case classTime:
 				timeWhats = append(timeWhats, w)
@@ -615,6 +646,27 @@ func (j *judge) judgeCase(cr caseRuns, recs []runRecord, serialRef *runRecord) {
 				j.witness(cr, ref, rr, map[string]any{"time_derived_metrics_differing": timeWhats, "examples": diffExamples(d, timeWhats, 6)}))
 		}
 	}
+}
+
+// splitRowSet separates "row-set:<what>" entries (rows present in only one of
+// the two runs) from value differences.
+func splitRowSet(whats []string) (plain, rowSet []string) {
+	for _, w := range whats {
+		if strings.HasPrefix(w, "row-set:") {
+			rowSet = append(rowSet, strings.TrimPrefix(w, "row-set:"))
+		} else {
+			plain = append(plain, w)
+		}
+	}
+	return plain, rowSet
+}
+
+func prefixed(whats []string) []string {
+	out := make([]string, len(whats))
+	for i, w := range whats {
+		out[i] = "row-set:" + w
+	}
+	return out
 }
 
 func sumYields(m map[string]int64) int64 {
